@@ -29,7 +29,7 @@ def make(pid, quick, thorough, rule, max_paths_quick=1500, neg=None):
         if neg:
             jobs.append(lambda: tlc.run_tlc("core", "Geoh5Core", neg[0], workers=2, keep_lines=False, heap="4g"))
         viol, cov, side = core_engine.run_cfgs(pid, cfgs, seed, side_jobs=jobs,
-                                               max_paths=(max_paths_quick // len(cfgs)) if tier == "quick" else None)
+                                               max_paths=(max_paths_quick // len(cfgs)) if tier == "quick" else 12000)
         mine = [v for v in viol if v.get("prop") is None or pid in v["prop"]]
         ires = side[0]
         cov["ideal_design"] = {"cfg": "Ideal_" + tier, "distinct_states": ires.distinct, "states_generated": ires.generated,
